@@ -3,6 +3,7 @@ import SspModel.Model.Life
 import SspModel.Model.Eject
 import SspModel.Model.Kicks
 import SspModel.Model.IMF
+import SspModel.Model.Bins
 /-!
 # Line-protocol driver: one op per line in, one line out. Doubles cross as 16-hex-digit bit patterns.
 Runs the *same* model terms the theorems are about, at the `Float` instance.
@@ -95,6 +96,21 @@ def step (ws : List String) : String :=
     let (mb, r1) := takeList rest
     let (a, _) := takeList r1
     toHex (imfMtot (mkSegs mb a) (parseHex n))
+  | ["divide", n, k] => " ".intercalate ((divideBinSizes n.toNat! k.toNat!).map toString)
+  | "edges" :: sp :: rest =>
+    let (mb, r1) := takeList rest
+    let each := r1.map String.toNat!
+    fl (msEdges (if sp == "log" then Spacing.log else Spacing.linear) mb each true)
+  | "carve" :: wd :: bh :: ns :: rest =>
+    let ms := binsOfEdges (rest.map parseHex)
+    s!"{pairsOut (carveWD ms (parseHex wd))} | {pairsOut (carveNS ms (parseHex ns))} | {pairsOut (carveBH ms (parseHex bh))}"
+  | "index" :: m :: rest =>
+    match determineIndex (pairs (rest.map parseHex)) (parseHex m) with
+    | .ok i => s!"ok {i}"
+    | .error .below => "err below"
+    | .error .above => "err above"
+  | "turnoff" :: m :: rest =>
+    pairsOut (turnedOffBins (pairs (rest.map parseHex)) (if m == "inf" then none else some (parseHex m)))
   | ["mrem", d, mb, mt] => toHex (Mrem (parseHex d) (parseHex mb) (parseHex mt))
   | ["sigmoid", slope, scale, m] => toHex (sigmoidRet (parseHex slope) (parseHex scale) (parseHex m))
   | ["erf", x] => toHex (Scalar.erf (parseHex x))
